@@ -7,7 +7,7 @@
    is decided by correspondence + oracle only; see DESIGN.md. *)
 From Coq Require Import List NArith ZArith Bool.
 From TexModel Require Import Base Tables Chars Tokenizer Tree Reader.
-From TexProofs Require Import TokProofs ReaderLen ReaderSim ReaderCons ConsTop.
+From TexProofs Require Import TokProofs ReaderLen ReaderSim ReaderCons ConsTop ConsBridge.
 Import ListNotations.
 
 (* clause 1: whenever strict parsing succeeds, tolerant parsing returns the
@@ -36,6 +36,17 @@ Theorem C07_only_closers :
     Rel true toks (estr t).
 Proof. intros s user t toks. exact (parse_conserves_hyp s false user t toks). Qed.
 Print Assumptions C07_only_closers.
+
+(* string level, hypotheses decidable: the output is the kept tokens of the input
+   (argument spacers dropped) with closer strings `}` `]` `\end{name}` inserted
+   between them (`Ins`, Proofs/ConsBridge.v) - nothing else changes *)
+Theorem C07_only_closers_string :
+  forall (s : str) (user : list str) (t : expr),
+    parse s false user = Ok t ->
+    hypb (all_skip user) (fst (tokens_of_string s)) = true -> nobare t = true ->
+    exists kept, Kept (fst (tokens_of_string s)) kept /\ Ins kept (estr t).
+Proof. exact parse_tolerant_inserts. Qed.
+Print Assumptions C07_only_closers_string.
 
 (* non-vacuity: a document strict parsing accepts; and one only tolerant parsing accepts *)
 Example C07_ex_both :
